@@ -1245,6 +1245,13 @@ class Session:
                     ev = self.exec_step(rep, i, st)
                 except HarnessError:
                     raise
+                except Exception as e:
+                    if "sorting pytree dictionary keys" not in str(e):
+                        raise
+                    # a trace that JAX cannot flatten (mixed str / tuple addresses)
+                    # reached harness code that flattens it
+                    self.viol("C23.unflattenable", {"C23", "C22"}, i, rep, "%s: %s: %s" % (st.get("op"), type(e).__name__, str(e)[:200]), "crash")
+                    ev = {"op": st.get("op"), "outcome": "crash"}
                 ev["perts"] = rep.perts(i)
                 rep.events.append(ev)
                 if ev.get("outcome") == "ok":
